@@ -172,7 +172,10 @@ def shard_plays(ctx, payload):
         # one play in five records clearances, failures and retirements through the card-letter entry point bib_trial
         hjimpl.VIA_TRIAL = (i % 5 == 2)
         try:
-            hjplay.random_play(rng.randrange, on_call, noise=20, nmin=1, float_heights=fh, tail=40, int_bibs=ib)
+            en = (i % 4 == 1)          # one play in four: entries made with the optional start-list keywords
+            hjplay.random_play(rng.randrange, on_call, noise=20, nmin=1, float_heights=fh, tail=40, int_bibs=ib, entries=en)
+            if en:
+                ctx.label('play-entries-with-start-list-keywords')
         finally:
             if hjimpl.VIA_TRIAL:
                 ctx.label('play-via-bib_trial')
